@@ -188,7 +188,7 @@ func verifC06Observe(s etcdRaft.Storage) string {
 	}
 	for a := fi; a <= li; a++ {
 		for b := a + 1; b <= li+1; b++ {
-			for _, max := range []uint64{0, 20, 1 << 40} {
+			for _, max := range []uint64{0, 1, 7, 20, 1 << 40} {
 				es, err := s.Entries(a, b, max)
 				out += fmt.Sprintf("E[%d,%d,%d]=", a, b, max)
 				for _, e := range es {
